@@ -26,7 +26,7 @@ RULE = (
     "distinct = (struct shape signature, coarse value class)."
 )
 ASSUMPTIONS = [
-    "values travel as JSON: finite floats only (f32 values exactly representable), 7-bit ASCII strings",
+    "values travel as JSON: finite floats only (f32 values exactly representable), valid UTF-8 strings",
     "identifiers avoid C++ reserved words and the names the templates emit",
     "every payload struct plays one role in one service (known finding cpp-rpc-struct-in-two-roles) and fcp_default.h is probed separately (known finding cpp-default-namespace-header)",
     "trusted base: vf/ref/codec.py, vendored nlohmann/json 3.11.2, clang++ 14 sanitizer run-times",
@@ -46,8 +46,6 @@ def check_batch(run, b, nrand):
     lines = []
     meta = []
     for name in sch.structs:
-        if name.endswith(("Input", "Output")):
-            continue
         vals = b.values(run, name, nrand)
         t = ("struct", name)
         for vi, v in enumerate(vals):
